@@ -25,6 +25,12 @@ CHECKS = {
  "C07": ("other", "call-graph SCC classification: depth-guard recognition (dominators), monotone-parameter recursion, block-only descent by EDPE, leaf self-calls from the pairing table; stack budget from compile-only -fstack-usage",
          "Decides the stack clause structurally: every recursive cycle reachable from the API is bounded by a guard against a constant (or confined to block-level nesting / flat input / a visited set) and bound x frame sizes fits a 2 MiB budget; plus R-CONSTTIME (append primitives are loop-free), a necessary condition of the linear-cost clause. Asymptotic cost itself is NOT decided (data-dependent loops).",
          "§3 C07"),
+ "C12": ("other", "enum-dispatch partial evaluation of accept_token / reject_token over every cm_types enumerator, mirror comparison under ADD<->DEL; loop-direction and writer agreement checks",
+         "Decides two structural clauses: accept and reject implement mirror-image tables (so a one-sided edit breaks one of them), every editing loop walks back to front from the tail, and the three writers' inline accept/reject handling of PAIR_CRITIC_* agree with one another and mirror. Byte-exact results and idempotence are not decided.",
+         "§3 C12"),
+ "C14": ("other", "EDPE of the OPML/ITMZ escapers over all 256 byte values + pattern extraction of the XML unescaper's entity table; inverse-table comparison",
+         "Decides that XML escaping on export and unescaping on import are exact inverses byte for byte (entity text, compare length, cursor advance, governing case), exhaustively over the 256 byte values. Verbatim section spans, heading nesting and re-import equality are not decided.",
+         "§3 C14"),
  "C13": ("other", "dominator / post-dominator obligations on mmd_transclude_source's CFG + interval analysis of its text[] buffer",
          "Decides the termination guard only: the recursive call is dominated by the push of the file and by a membership loop over the files being expanded whose hit branch skips the recursion, every push is followed by exactly one pop, exit restores the stack; and the 1000-byte cap fits text[1100]. Exact substitution, manifest contents and path resolution are not decided.",
          "§3 C13"),
